@@ -7,6 +7,13 @@ package types
 // values are built once and never changed (checked: every store to these fields initialises a fresh object)
 //@ immutable XText::native, XNumber::native, XDateTime::native
 
+// representation invariants of the lazily initialised containers: there is always either the materialised content or
+// the function that produces it (established by the constructors, kept by values() / ensureInitialized(); every
+// function that writes these fields or allocates the type has the obligation typeinv[T] at each return, everybody
+// else relies on it)
+//@ typeinv XArray: self.data != nil || self.source != nil
+//@ typeinv XObject: self.props != nil || self.source != nil
+
 // history token: x.Call(env, params) returned `result` for a parameter list starting with `first`
 //@ pure fnCalled(x *XFunction, first XValue, result XValue) bool
 
